@@ -158,6 +158,10 @@ namespace Detail
 					"The target field range is insufficient for the value being loaded");
 			}
 		}
+		catch (const SerializationException&) {
+			// Keep the original error code (e.g. `MismatchedTypes` which is thrown above for non-convertible types)
+			throw;
+		}
 		catch (...) {
 			throw SerializationException(SerializationErrorCode::ParsingError, "Unknown error when convert value");
 		}
